@@ -8,8 +8,9 @@ stays a parameter of the translated `to_python`; the theorem instantiates it wit
 -/
 import WzVerif.Gen.PyFns_Routing
 import WzVerif.Lemmas.PyFns_Routing
+import WzVerif.Lemmas.PyFnsEq_Conv
 namespace Wz.Props.C04T
-open Wz Wz.Pre Wz.Routing Wz.PyFnsRouting
+open Wz Wz.Pre Wz.Routing Wz.PyFnsRouting Wz.Gen.PyFns_Routing Wz.PyFnsEq.Conv
 
 /-- `NumberConverter.to_python(value)`, as translated from the current source (the `fixed_digits`
 length check, `num_convert`, the `min` / `max` bounds, `ValidationError`), with `num_convert` read as
@@ -54,5 +55,108 @@ theorem number_to_url_eq (fixed : Nat) (signed : Bool) (mn mx : Option Int) (i :
 example : Gen.PyFns_Routing.number_to_url 4 (-7) = "-007".toList := by decide
 example : (Gen.PyFns_Routing.number_to_python (fun t => .ok (intOfText t)) 0 (some 1) none
     "0".toList).toOption = none := by decide
+
+/-! ### the other converters (translated in round 3; proofs in Lemmas/PyFnsEq_Conv.lean) -/
+
+/-- `BaseConverter.to_python(value)`, as translated from the current source (`return value`), is what
+the model's `toPython` answers for every converter whose class does not override it —
+`UnicodeConverter` (`string` / `default`, any length options), `AnyConverter` (any items) and
+`PathConverter`: the matched text itself, never a `ValidationError`. So for these converters the
+regex alone decides whether a rule matches. -/
+theorem base_to_python_eq (c : Routing.Conv) (s : List Char)
+    (hc : InheritsBase c ∨ ∃ items, c = .any items) :
+    toPython c s = some (.str (base_to_python s)) := by
+  apply PyFnsEq.Conv.base_to_python_eq <;> assumption
+
+/-- `BaseConverter.to_url(value)`, as translated from the current source
+(`quote(str(value), safe="!$&'()*+,/:;=@")`), is the model's `quote pathSafe`: the `safe=` literal
+written in `converters.py` is exactly the model's `pathSafe` (the WHATWG path-segment set), for every
+text. A change of that literal in the source breaks this theorem. -/
+theorem base_to_url_eq (s : List Char) : base_to_url s = Routing.quote Routing.pathSafe s := by
+  apply PyFnsEq.Conv.base_to_url_eq <;> assumption
+
+/-- What the model's `toUrl` answers for the converters inheriting `BaseConverter.to_url`
+(`UnicodeConverter` with any length options, `PathConverter`) is the translated
+`BaseConverter.to_url` applied to `str(value)` — for every value, in particular
+`toUrl c (.str s) = .ok (base_to_url s)`: URL building percent-encodes the value with the safe set of
+the source and never fails for these converters. -/
+theorem base_to_url_toUrl (c : Routing.Conv) (hc : InheritsBase c) (v : Routing.Value) :
+    toUrl c v = .ok (base_to_url (pyStr v)) := by
+  apply PyFnsEq.Conv.base_to_url_toUrl <;> assumption
+
+/-- The regex text the translated `UnicodeConverter.__init__` stores in `self.regex`
+(`[^/]{length}`, or `[^/]{minlength,maxlength}` with an empty upper bound for `maxlength=None`) is the
+model's `Conv.regexText` of the `string` converter, for all natural `minlength`, `maxlength`,
+`length`: `length` wins over `minlength` / `maxlength`, exactly as in the model's `Conv.kind`. -/
+theorem unicode_init_eq (mn : Nat) (mx len : Option Nat) :
+    String.ofList (unicode_init () (mn : Int) (mx.map Int.ofNat) (len.map Int.ofNat))
+      = (Routing.Conv.string mn mx len).regexText := by
+  apply PyFnsEq.Conv.unicode_init_eq <;> assumption
+
+/-- `AnyConverter.__init__` in one statement: the stored regex is the model's regex text and the stored
+set has the membership of the model's item list -/
+theorem any_init_eq (items : List (List Char)) :
+    String.ofList (any_init () items).2 = (Routing.Conv.any items).regexText ∧
+    (any_init () items).1 = Pre.frozenset items ∧
+    ∀ s, (any_init () items).1.contains s = items.contains s := by
+  apply PyFnsEq.Conv.any_init_eq <;> assumption
+
+/-- `AnyConverter.to_url(value)` on any stored set with the membership of `items`: the model's
+`toUrl (.any items)`. (The text `valid_values` built from `sorted(self.items)` only feeds the message
+of the `ValueError`.) -/
+theorem any_to_url_of_contains (self_items items : List (List Char)) (s : List Char)
+    (h : self_items.contains s = items.contains s) :
+    any_to_url self_items s = toUrl (.any items) (.str s) := by
+  apply PyFnsEq.Conv.any_to_url_of_contains <;> assumption
+
+/-- `AnyConverter.to_url(value)`, as translated from the current source, on the object the translated
+`AnyConverter.__init__` builds from `items`, is the model's `toUrl (.any items)` for every item list
+and every text: a value among the items is percent-encoded by `BaseConverter.to_url`, any other
+value raises `ValueError` (so URL building with an `any` converter rejects values the rule could
+never match). -/
+theorem any_to_url_eq (items : List (List Char)) (s : List Char) :
+    any_to_url (any_init () items).1 s = toUrl (.any items) (.str s) := by
+  apply PyFnsEq.Conv.any_to_url_eq <;> assumption
+
+/-- `NumberConverter.signed_regex`, as translated from the current source (`f"-?{self.regex}"`), is
+the signed form of the model's number regex -/
+theorem number_signed_regex_eq (cls : String) :
+    String.ofList (number_signed_regex cls.toList) = numRegex cls true := by
+  apply PyFnsEq.Conv.number_signed_regex_eq <;> assumption
+
+/-- `NumberConverter.__init__`, as translated from the current source, on a class whose class-level
+`regex` is `cls`: `self.regex` becomes `-?` + `cls` when `signed`, and stays `cls` otherwise; the
+other attributes are the arguments. -/
+theorem number_init_eq (cls : String) (fixed : Int) (mn mx : Option Int) (signed : Bool) :
+    number_init cls.toList () fixed mn mx signed
+      = ((numRegex cls signed).toList, fixed, mn, mx, signed) := by
+  apply PyFnsEq.Conv.number_init_eq <;> assumption
+
+/-- `IntegerConverter(map, fixed_digits, min, max, signed)`: the regex text the translated
+`NumberConverter.__init__` stores, started from the class-level `IntegerConverter.regex` (`\d+`), is
+the model's `Conv.regexText` of the `int` converter — `-?\d+` exactly when `signed` — and the stored
+`fixed_digits`, `min`, `max`, `signed` are the fields of the model's `Conv.int`. -/
+theorem number_init_int_eq (fixed : Nat) (mn mx : Option Int) (signed : Bool) :
+    String.ofList (number_init (classRegex "int").toList () (fixed : Int) mn mx signed).1
+        = (Routing.Conv.int fixed signed mn mx).regexText ∧
+    (number_init (classRegex "int").toList () (fixed : Int) mn mx signed).2
+        = ((fixed : Int), mn, mx, signed) := by
+  apply PyFnsEq.Conv.number_init_int_eq <;> assumption
+
+/-- `FloatConverter(map, min, max, signed)` (`fixed_digits` is not offered: `super().__init__` gets
+the default `0`): the regex text the translated `NumberConverter.__init__` stores, started from the
+class-level `FloatConverter.regex` (`\d+\.\d+`), is the model's `Conv.regexText` of the `float`
+converter for any bounds `mn'`, `mx'` of the model (the model keeps float bounds as decimals, the
+regex does not depend on them), and the stored attributes are the arguments. -/
+theorem number_init_float_eq (fixed : Int) (mn mx : Option Int) (mn' mx' : Option Routing.Dec)
+    (signed : Bool) :
+    String.ofList (number_init (classRegex "float").toList () fixed mn mx signed).1
+        = (Routing.Conv.float signed mn' mx').regexText ∧
+    (number_init (classRegex "float").toList () fixed mn mx signed).2
+        = (fixed, mn, mx, signed) := by
+  apply PyFnsEq.Conv.number_init_float_eq <;> assumption
+
+
+example : String.ofList (unicode_init () 2 none none) = "[^/]{2,}" := by decide
 
 end Wz.Props.C04T
